@@ -26,13 +26,10 @@ Definition f_algorithms_clustering_number_of_components : cmd :=
   (Call "algorithms.clustering.get_components" ENone).
 Definition f_algorithms_core_core_periphery_dir : cmd :=
   (Seq (GetRng "rng" ESeed)
-  (Seq (Choice (Seq (DrawLocal "rng")
-        (Choice (Call "algorithms.core.core_periphery_dir" ENone)
-          Skip))
+  (Seq (Choice (DrawLocal "rng")
       Skip)
-    (Choice (Loop (Choice (Loop (DrawLocal "rng"))
-          Skip))
-      Skip))).
+    (Loop (Choice (Loop (DrawLocal "rng"))
+        Skip)))).
 Definition f_algorithms_generative_evaluate_generative_model : cmd :=
   (Seq (Call "algorithms.clustering.clustering_coef_bu" ENone)
   (Seq (Call "algorithms.centrality.betweenness_bin" ENone)
